@@ -232,6 +232,12 @@ def handleAck (st : St) (b : Bytes) : Out :=
       | some ids =>
         ⟨{ st with acks := (notifyAcks st.acks ids).1 }, (notifyAcks st.acks ids).2, true⟩
 
+/-- All waiter closes caused by a history of msgs_ack payloads (arbitrary bytes, malformed ones
+included) handled one after the other by `handleAck`. -/
+def ackRun (st : St) : List Bytes → List Ev
+  | [] => []
+  | b :: bs => (handleAck st b).evs ++ ackRun (handleAck st b).st bs
+
 /-- The buffer `handleResult` goes on with and its (re-read) type id: the body itself, or the
 decompressed content when the body is a gzip packet (`id, err = b.PeekID()` after `gzip(b)`). -/
 def resultContent (gz : List (Bytes × Option Bytes)) (id0 : Nat) (body : Bytes) : Option (Nat × Bytes) :=
